@@ -1154,7 +1154,10 @@ OrderedAlignment *ACALayout::chooseOA(void)
             sn = sn << 1;
             OrderedAlignment *oa = initOrdAlign(j, sf);
             // Skip this one if it would enforce an overlap.
-            if (createsOverlap(oa)) continue;
+            if (createsOverlap(oa)) {
+                delete oa;
+                continue;
+            }
             // Otherwise compute the penalty and store the oa.
             oa->penalty = computePenalty(j,sf);
             oas.push_back(oa);
